@@ -15,12 +15,22 @@ NULLS = ('.', '*')
 TC = kp.TokenCategory
 
 
-def loads_clean(text, what='document'):
-    """import a generated document that is well-formed by construction: it must not raise and must have no errors"""
+def loads_clean(text, what='document', via_file=False):
+    """import a generated document that is well-formed by construction: it must not raise and must have no errors.
+    via_file: write the text to a temporary file and use kernpy.load (the property holds for both entry points)"""
     try:
-        doc, errs = kp.loads(text)
+        if via_file:
+            import os
+            import tempfile
+            with tempfile.TemporaryDirectory(prefix='kv_load_') as d_:
+                path = os.path.join(d_, 'in.krn')
+                with open(path, 'w', encoding='utf-8', newline='') as f:
+                    f.write(text)
+                doc, errs = kp.load(path)
+        else:
+            doc, errs = kp.loads(text)
     except Exception as e:  # noqa
-        raise Bad('import-raised', f'loads of a well-formed {what} raised {type(e).__name__}: {e}\n{text}')
+        raise Bad('import-raised', f'{"load (file)" if via_file else "loads"} of a well-formed {what} raised {type(e).__name__}: {e}\n{text}')
     if errs:
         raise Bad('import-errors', f'well-formed {what} imported with errors {[(x.line, x.encoding) for x in errs]}\n{text}')
     return doc
@@ -77,6 +87,8 @@ def expected_atoms(n, with_sigs=True):
     a[n['p']] += 1
     if n['acc']:
         a[n['acc']] += 1
+    if n.get('pos'):
+        a[n['pos']] += 1  # explicit vertical position of a rest
     if with_sigs:
         for s in set(n['sigs']):
             a[s] += 1
@@ -228,8 +240,8 @@ def via_dump_file(doc, expect=None, **kw):
                 with open(path, 'w', encoding='utf-8', newline='') as f:
                     f.write(fill)
             kp.dump(doc, path, **kw)
-            with open(path, encoding='utf-8', newline='') as f:
-                outs.append(f.read())
+            with open(path, 'rb') as f:
+                outs.append(f.read().decode('utf-8', errors='replace'))  # a damaged file is a finding, not a crash of the harness
         if len(outs) == 2 and outs[0] != outs[1]:
             raise Bad('dump-depends-on-old-file', f'dump({_kwrepr(kw)}) onto an existing file: the result depends on the previous content '
                                                   f'of the file\n--- over same-length content\n{outs[0]}--- over longer content\n{outs[1]}')
